@@ -25,6 +25,8 @@ def tasks(tier):
       dict(shape=[4], cfg=dict(second_order='shampoo', block_size=2, merge_dims=2, skip_rank1=False)),
       dict(shape=[4], cfg=dict(second_order='shampoo', block_size=2, merge_dims=2, skip_rank1=True)),
       dict(shape=[3, 2], cfg=dict(second_order='shampoo', block_size=4, merge_dims=2, skip_dim_gt=2)),
+      dict(shape=[4], cfg=dict(second_order='shampoo', block_size=2, merge_dims=2, skip_rank1=False, skip_dim_gt=2)),
+      dict(shape=[2], cfg=dict(second_order='shampoo', block_size=2, merge_dims=2, skip_rank1=False, skip_dim_gt=2)),
       dict(shape=[3], cfg=dict(second_order='sketchy', sk_rank=1, merge_dims=2, skip_rank1=False, decay=0.5)),
   ]
   if tier == 'thorough':
